@@ -9,6 +9,8 @@
 package main
 
 import (
+	ctx509 "github.com/google/certificate-transparency-go/x509"
+	"encoding/asn1"
 	"crawshaw.io/sqlite"
 	"crawshaw.io/sqlite/sqlitex"
 	"sync"
@@ -629,6 +631,12 @@ func (d *driver) realCert() []byte {
 	if d.r.Intn(3) == 0 {
 		tmpl.IPAddresses = []net.IP{net.IPv4(10, 0, byte(d.r.Intn(256)), byte(d.r.Intn(256)))}
 	}
+	if d.r.Intn(5) == 0 {
+		// a tolerated defect: the CT x509 fork returns the certificate TOGETHER WITH a non-fatal error
+		// (empty AuthorityInfoAccess); ctfe.ValidateChain accepts such chains, so they get logged
+		tmpl.ExtraExtensions = []pkix.Extension{{Id: asn1.ObjectIdentifier{1, 3, 6, 1, 5, 5, 7, 1, 1}, Value: []byte{0x30, 0x00}}}
+		d.stats["cert-with-nonfatal-parse-error"]++
+	}
 	der, err := x509.CreateCertificate(rand.Reader, tmpl, tmpl, d.keys[0].Public(), d.keys[0])
 	if err != nil {
 		panic(err)
@@ -638,15 +646,42 @@ func (d *driver) realCert() []byte {
 
 const tsSentinel = 7777777777777777
 
+// indepTrimmed mirrors sunlight.TrimmedEntry's JSON shape; it is filled here from the certificate
+// parsed with the CT x509 fork directly, NOT through (*LogEntry).TrimmedEntry, which is under test
+type indepTrimmed struct {
+	Timestamp int64
+	Subject   struct {
+		Country, Organization, OrganizationalUnit []string `json:",omitempty"`
+		Locality, Province                        []string `json:",omitempty"`
+		StreetAddress, PostalCode                 []string `json:",omitempty"`
+		CommonName                                string   `json:",omitempty"`
+	} `json:",omitzero"`
+	DNS []string `json:",omitempty"`
+	IP  []string `json:",omitempty"`
+}
+
 // namesTemplate returns the names-tile line of the entry with byte 0xff in place of the decimal
-// timestamp (empty when the certificate does not parse), via the real TrimmedEntry + encoding/json
+// timestamp (empty when the certificate does not parse AT ALL: a certificate that the parser
+// returns together with a non-fatal error is a parsed certificate)
 func namesTemplate(e *ctlog.PendingLogEntry) []byte {
-	le := &sunlight.LogEntry{Certificate: e.Certificate, IsPrecert: e.IsPrecert, PreCertificate: e.PreCertificate, Timestamp: tsSentinel}
-	tl, err := le.TrimmedEntry()
-	if err != nil {
+	der := e.Certificate
+	if e.IsPrecert {
+		der = e.PreCertificate
+	}
+	cert, _ := ctx509.ParseCertificate(der)
+	if cert == nil {
 		return nil
 	}
-	line, err := json.Marshal(tl)
+	t := &indepTrimmed{Timestamp: tsSentinel}
+	t.Subject.Country, t.Subject.Organization, t.Subject.OrganizationalUnit = cert.Subject.Country, cert.Subject.Organization, cert.Subject.OrganizationalUnit
+	t.Subject.Locality, t.Subject.Province = cert.Subject.Locality, cert.Subject.Province
+	t.Subject.StreetAddress, t.Subject.PostalCode, t.Subject.CommonName = cert.Subject.StreetAddress, cert.Subject.PostalCode, cert.Subject.CommonName
+	t.DNS = cert.DNSNames
+	t.IP = make([]string, len(cert.IPAddresses))
+	for i, ip := range cert.IPAddresses {
+		t.IP[i] = ip.String()
+	}
+	line, err := json.Marshal(t)
 	if err != nil {
 		return nil
 	}
